@@ -257,7 +257,7 @@ def run(ctx):
                     "clang/ASan/UBSan"]
     ctx.assumptions += ["descriptor identities are unique per open file description (kernel never hands the same connection out twice)",
                         "SCM_RIGHTS delivery order and SO_ERROR semantics of the kernel (inputs of the model)"]
-    proofs_ok = ctx.require_lean(["UvModel.Props.C07"])
+    proofs_ok = ctx.require_lean(["UvModel.Props.C07", "UvModel.Props.C07Connect"])
     uexe = ctx.harness("c07_unit", ["harness/c07_unit.c"], link_lib=True)
     sexe = ctx.harness("c07_sim", ["harness/c07_sim.c"], link_lib=True)
     if ctx.replay:
@@ -271,7 +271,7 @@ def run(ctx):
     if uexe:
         ex = list(exhaustive_unit_cases(ctx.scale(40, 64)))
         ok = run_unit(ctx, uexe, ex, "exhaustive chunks x pops, 1..40 descriptors")
-        cases = [gen_unit_case(rng, big=rng.chance(1, 4)) for _ in range(ctx.scale(1500, 30000))]
+        cases = [gen_unit_case(rng, big=rng.chance(1, 4)) for _ in range(ctx.scale(1000, 30000))]
         for i in range(0, len(cases), 500):
             ok = ok and run_unit(ctx, uexe, cases[i:i + 500], "random")
         ctx.sample({"unit_ops": cases[0][:14]})
@@ -300,6 +300,9 @@ def run(ctx):
         if sexe and not ctx.violations:
             n += run_sim_part(ctx, sexe, search=True)
         ctx.notes["search"] = f"{n} extra cases run against the monitors after an obligation broke"
+    ctx.notes["code_as_is"] = ("uv_accept() outside connection_cb into a client that fails uv__stream_open (e.g. UV_EBUSY) closes the "
+                               "connection and leaves POLLIN paused with nothing pending (stream.c:594 `if (err == 0)`); proved as "
+                               "pollin_stays_paused_after_failed_deferred_accept, reproduced by the unit harness; API misuse, not counted as a violation")
     ctx.cov["rule"] = ("unit: exhaustive (count 1..40/64) x chunking x interleaved pops, then random op sequences on a listening or "
                        "IPC stream (accept results, EMFILE trick, allocation failures, 5 client kinds, close); non-trivial = queue grown "
                        "past 8 slots or a deferred accept, distinct by state-dump hash. sim: random programs over real sockets; "
